@@ -628,7 +628,9 @@ def translate(repo, out_path):
         with open(out_path, "w", encoding="utf-8") as f:
             f.write(text)
     return {
-        "obligations": 0,
+        # one generated proof obligation per rule: its `rule_sound_<name>` theorem in Props.lean (48 of them are audited through
+        # the two bundle theorems lib_rules_sound / arith_rules_sound, safe_power through rule_sound_safe_power)
+        "obligations": len(arith_rules) + len(lib_rules),
         "rules": len(arith_rules) + len(lib_rules),
         "arith": [r["name"] for r in arith_rules],
         "lib": [r["name"] for r in lib_rules],
